@@ -449,6 +449,8 @@ func runC19(p params) error {
 		in.TieFlip = r.IntN(2) == 1
 		c19AddCase(out, fmt.Sprintf("k%d-sampled", k), in)
 	}
+	// configurations used through Config.Clone carry the fields this property depends on
+	cloneCases(out, []string{"dtlcp"}, map[string][]string{"dtlcp": {"InitialRetransmitTimeout", "MaxRetransmitTimeout", "NewTimer", "PMTU"}})
 	return out.Finish()
 }
 
